@@ -409,7 +409,7 @@ func CheckMain(args []string) int {
 	}
 	wall := time.Since(start).Seconds()
 
-	if !*noEvidence {
+	if !*noEvidence && len(onlySet) == 0 {
 		var hsl []*harnessSummary
 		for _, h := range active {
 			hsl = append(hsl, sums[h.Name])
